@@ -1,10 +1,10 @@
 (* C07 model driver: one case per line on stdin, one answer line per case.
-   RUN natoms m.. cell kT hide subtract samestep includecv ncomp {comp coeff}.. nsteps {pos(3n) eforce(3n) fb}..
+   RUN natoms m.. cell kT hide subtract samestep includecv ncomp {comp coeff}.. nsteps {pos(3n) eforce(3n) fb apply}..
      -> per step "value ft f fx fy fz .." joined by " | "
    CVC natoms m.. cell comp pos(3n) F(3n) fc -> "value jd ft forces(3n)"
    comp:  D g g os | DZ g g og ax ay az os | DXY g g og ax ay az os | A g g g os | DH g g g g os
           | GY k id.. | RM k id.. ref(3k) ne copy(3k).. cen | EV k id.. ref(3k) evec(3k) cen
-          | RMR k id.. ref(3k) ne copy(3k).. | EVR k id.. ref(3k) evec(3k)   (rotated; each step then carries q0 q1 q2 q3 jd per such comp)
+          | RMR k id.. ref(3k) ne copy(3k).. | EVR k id.. ref(3k) evec(3k)   (rotated; each step then carries q0 q1 q2 q3 jd nfit fit(3 nfit) per such comp)
    g: G k id.. | U x y z      og: - | g      cen, cell: N | C x y z      os: 0|1 *)
 open Model
 open X_fops
@@ -35,7 +35,7 @@ let () =
           if w.(!p) = "-" then (Stdlib.incr p; None) else Some (group ()) in
         let cen () = match next () with "N" -> None | "C" -> Some (v3 ()) | s -> failwith ("cen " ^ s) in
         (* rotated components: rotation matrix and Jacobian derivative per step, looked up by the positions closure *)
-        let rtabs : (float field * (((float * float) * float) * float) * float) list ref list ref = ref [] in
+        let rtabs : (float field * (((float * float) * float) * float) * float * ((float * float) * float) list) list ref list ref = ref [] in
         let newtab () = let t = ref [] in rtabs := !rtabs @ [t]; t in
         let idm = (((1.0, 0.0), 0.0), 0.0) in
         let comp () =
@@ -52,11 +52,12 @@ let () =
             CEigenvector (l, r, e, cen ())
           | "RMR" -> let l = ids () in let r = List.map (fun _ -> v3 ()) l in
             let ne = ni () in let ex = List.init ne (fun _ -> List.map (fun _ -> v3 ()) l) in let t = newtab () in
-            CRmsdRot (l, r, ex, (fun p -> try let (_, m, _) = List.find (fun (q, _, _) -> q == p) !t in m with Not_found -> idm),
-                      (fun p -> try let (_, _, j) = List.find (fun (q, _, _) -> q == p) !t in j with Not_found -> 0.0))
+            CRmsdRot (l, r, ex, (fun p -> try let (_, m, _, _) = List.find (fun (q, _, _, _) -> q == p) !t in m with Not_found -> idm),
+                      (fun p -> try let (_, _, j, _) = List.find (fun (q, _, _, _) -> q == p) !t in j with Not_found -> 0.0),
+                      (fun p -> try let (_, _, _, f) = List.find (fun (q, _, _, _) -> q == p) !t in f with Not_found -> []))
           | "EVR" -> let l = ids () in let r = List.map (fun _ -> v3 ()) l in let e = List.map (fun _ -> v3 ()) l in let t = newtab () in
-            CEigenvectorRot (l, r, e, (fun p -> try let (_, m, _) = List.find (fun (q, _, _) -> q == p) !t in m with Not_found -> idm),
-                      (fun p -> try let (_, _, j) = List.find (fun (q, _, _) -> q == p) !t in j with Not_found -> 0.0))
+            CEigenvectorRot (l, r, e, (fun p -> try let (_, m, _, _) = List.find (fun (q, _, _, _) -> q == p) !t in m with Not_found -> idm),
+                      (fun p -> try let (_, _, j, _) = List.find (fun (q, _, _, _) -> q == p) !t in j with Not_found -> 0.0))
           | s -> failwith ("comp " ^ s) in
         let field n = let a = Array.init n (fun _ -> v3 ()) in
           (fun (i : nat) -> let k = int_of_nat i in if k < n then a.(k) else ((0.0, 0.0), 0.0)) in
@@ -71,10 +72,11 @@ let () =
            let comps = List.init nc (fun _ -> let c = comp () in let k = nf () in (c, k)) in
            let cv = { cv_comps = comps; cv_hide = hide; cv_subtract = sub; cv_samestep = same; cv_kT = kt } in
            let ns = ni () in
-           let inputs = List.init ns (fun _ -> let ps = field n in let fs = field n in let fb = nf () in
+           let inputs = List.init ns (fun _ -> let ps = field n in let fs = field n in let fb = nf () in let ap = nb () in
                                        List.iter (fun t -> let q0 = nf () in let q1 = nf () in let q2 = nf () in let q3 = nf () in let j = nf () in
-                                                   t := (ps, (((q0, q1), q2), q3), j) :: !t) !rtabs;
-                                       { e_pos = ps; e_force = fs; e_fb = fb }) in
+                                                   let nfit = ni () in let fit = List.init nfit (fun _ -> v3 ()) in
+                                                   t := (ps, (((q0, q1), q2), q3), j, fit) :: !t) !rtabs;
+                                       { e_pos = ps; e_force = fs; e_fb = fb; e_apply = ap }) in
            let (_, outs) = eng_run fops pi cell mass cv inc (eng_init fops) inputs in
            let one (i : float einput) (o : float cvout) =
              let value = List.fold_left (fun acc (c, k) -> acc +. k *. cvc_value fops pi cell mass i.e_pos c) 0.0 comps in
